@@ -235,10 +235,17 @@ func checkMain(args []string) int {
 	if prop == "C20" {
 		return checkC20(tier)
 	}
-	return checkChain(prop, tier)
+	if prop == "C17" {
+		return checkChain(prop, tier, []extraPart{ksPart("C17")})
+	}
+	return checkChain(prop, tier, nil)
 }
 
-func checkChain(prop, tier string) int {
+// extraPart: additional engines contributing to one property's check (C20, C17): coverage section, number of
+// violations found, exit code (0/1/2).
+type extraPart func(seed uint64, tier string, scratch string) (cov map[string]interface{}, nviol int, exit int)
+
+func checkChain(prop, tier string, extras []extraPart) int {
 	seed := envSeed()
 	fmt.Printf("panasim check property=%s tier=%s VERIF_SEED=%d\n", prop, tier, seed)
 	tc := tierOf(prop, tier)
@@ -359,8 +366,19 @@ func checkChain(prop, tier string) int {
 			exit = 1
 		}
 	}
+	extraCov := map[string]interface{}{}
+	for _, x := range extras {
+		cov, nv, xc := x(seed, tier, scratch)
+		for k, v := range cov {
+			extraCov[k] = v
+		}
+		nviol += nv
+		if xc == 2 || (xc == 1 && exit == 0) {
+			exit = xc
+		}
+	}
 	wall := time.Since(t0).Seconds()
-	if err := writeEvidence(prop, tier, seed, results, nviol, wall, tc); err != nil {
+	if err := writeEvidence(prop, tier, seed, results, nviol, wall, tc, extraCov); err != nil {
 		fmt.Println("MACHINERY-TROUBLE: cannot write evidence:", err)
 		return 2
 	}
@@ -684,6 +702,8 @@ func cliMain(args []string) int {
 		return selftestMain(args[1:])
 	case "ksworker":
 		return ksWorkerMain(args[1:])
+	case "racechild":
+		return raceChildMain(args[1:])
 	}
 	fmt.Fprintln(os.Stderr, "unknown command", args[0])
 	return 2
